@@ -132,13 +132,8 @@ func expectText(s src, t *tkind) expectation {
 		str := s.s
 		switch ti.class {
 		case "int":
-			x := expectation{mode: mExact, exactv: ti.v}
-			if ti.hasF && ti.f != nearestFloat(ti.v) {
-				// "012": ten as an integer text, twelve as a floating point text
-				f := ti.f
-				x.fstr = &f
-			}
-			return x
+			// "012" is ten (one setting, one value: see expect, float targets)
+			return expectation{mode: mExact, exactv: ti.v}
 		case "bigint":
 			// no integer setting type holds it: the float64 strconv reads it as
 			// is the other reading such a numeral has
@@ -172,26 +167,23 @@ func expectText(s src, t *tkind) expectation {
 			}
 			return x
 		case "bigint":
-			// beyond every 64 bit integer type. What number the text->value step
-			// makes of such a numeral is pinned by C17 (parse.Value reads numbers
-			// as integers where they fit, else as the nearest float64, like JSON),
-			// not by C03: the target must then hold exactly that float64's value,
-			// or the read fails. (-2^63-1 reads as the float64 -2^63, which an
-			// int64 holds; a literal STRING setting of the same text must fail
-			// and is judged on the string routes.)
+			// beyond every 64 bit integer type, so outside the range of every
+			// integer target: always an error. (What parse.Value makes of such
+			// a numeral is C17's business - the nearest float64; for nearly all
+			// of them that float is out of range as well. Only in the band
+			// -2^63-1024 .. -2^63-1 the float64 is -2^63, which an int64 holds:
+			// the text -9223372036854775809 would arrive as -9223372036854775808.
+			// That is classified on its own.)
+			x := errExp("integer-beyond-64-bits")
 			if ti.hasF && !math.IsInf(ti.f, 0) {
-				x := expectNum(num{isFloat: true, f: ti.f}, t)
-				x.strict = false
-				if x.mode == mExact {
-					x.mode = mEither
-				}
-				return x
+				x.neighbour = truncBig(ti.f)
 			}
-			return errExp("integer-beyond-64-bits")
+			return x
 		}
 	case cFloat:
 		if isInt && e.mode != mErr {
-			// the integer reading next to the floating point reading ("012", "0x10")
+			// the integer reading next to the floating point reading ("0x10";
+			// for integers no 64 bit type holds also the decimal reading of "-01000...")
 			if alt := expectNum(num{v: ti.v}, t); alt.mode != mErr {
 				e.flts = append(e.flts, alt.flts...)
 			}
